@@ -105,12 +105,16 @@ package reference_criterion
 //@ wire ImportanceRatioReferenceCriterionProvider
 //@   property C01 C18 C20
 //@   json NewCriterionImportance=newCriterionImportance
+//@   gotypes NewCriterionImportance=float64
 //@ wire RandomUniformReferenceCriterionProvider
 //@   property C01 C18 C20
 //@   json NewCriterionRandomSeed=newCriterionRandomSeed
+//@   gotypes NewCriterionRandomSeed=int64
 //@ wire RandomWeightedReferenceCriterionProvider
 //@   property C01 C18 C20
 //@   json NewCriterionRandomSeed=newCriterionRandomSeed
+//@   gotypes NewCriterionRandomSeed=int64
 //@ wire referenceParamsType
 //@   property C01 C18 C20
 //@   json ReferenceCriterionType=referenceCriterionType
+//@   gotypes ReferenceCriterionType=string
